@@ -413,3 +413,35 @@ pub fn regen_c06(cx: &Cx, shard: usize, stream: u64, index: u64) -> Option<Value
     let strat = c06_strategy(stream);
     Some(to_json(&regen_case(tag_seed(derive_seed(cx.seed, cx.prop, shard as u64, stream), stream), &strat, index)))
 }
+
+/// seed corpus for a libFuzzer target: valid encodings of sampled values of every type of the target's list, each
+/// prefixed with the two selector bytes of its type (DESIGN section 5.5 (e))
+pub fn export_corpus(target: &str, dir: &std::path::Path, seed: u64) {
+    std::fs::create_dir_all(dir).expect("corpus dir");
+    if target == "read_compressed" {
+        use desert::BinaryOutput;
+        for (i, d) in [vec![], vec![7u8; 300], (0..=255u8).collect::<Vec<u8>>(), b"the quick brown fox ".repeat(40)].iter().enumerate() {
+            for level in [0u32, 1, 6, 9] {
+                let mut o = Vec::new();
+                o.write_compressed(d, flate2::Compression::new(level)).unwrap();
+                std::fs::write(dir.join(format!("frame-{i}-{level}")), &o).unwrap();
+            }
+        }
+        return;
+    }
+    let types = vcat::fuzz_types(target);
+    let cfg = ValCfg { max_len: 4, long: false, ..ValCfg::default() };
+    let mut n = 0;
+    for (i, ty) in types.iter().enumerate() {
+        for k in 0..3u64 {
+            let v = vmodel::declgen::sample_val(ty, cfg, seed ^ (k * 0x9e37) ^ (i as u64) << 20);
+            if let Ok(f) = ref_encode(ty, &v) {
+                let mut file = (i as u16).to_le_bytes().to_vec();
+                file.extend_from_slice(&f.bytes);
+                std::fs::write(dir.join(format!("seed-{i}-{k}")), &file).unwrap();
+                n += 1;
+            }
+        }
+    }
+    eprintln!("exported {n} seed inputs for {target}");
+}
